@@ -666,6 +666,20 @@ def main():
     out.append("Definition adecls : list attrdecl := [\n%s\n]." % ";\n".join(
         "  {| at_id := %d; at_grp := %d; at_ty := %d; at_name := %d; at_desc := %s |}" % (r["id"], r["grp"], r["ty"], r["aid"], r["desc"]) for r in arows))
     out.append("Definition known_attr : list N := [%s]." % "; ".join(str(r["id"]) for r in arows if r["sig"] in known_attr))
+    # a worked example for the non-vacuity statements: the textbox template, get_or_add of a:ln under
+    # p:spPr with the successors CT_ShapeProperties declares, then a name written on p:cNvPr
+    ex_t = next((m for m in tmeta if m["name"] == "CT_Shape.new_textbox_sp"), None)
+    ex_d = next((r for r in drows if r["cls"] == "CT_ShapeProperties" and r["child"] == "a:ln" and r["type"] == "a:CT_ShapeProperties"), None)
+    if ex_t is None or ex_d is None or "name" not in attrs:
+        unm.append("worked example (textbox template / CT_ShapeProperties a:ln declaration) not available")
+    else:
+        out.append("Definition ex_tree : node := tpl_%d." % ex_t["id"])
+        out.append("Definition ex_ty : N := %d." % ex_t["ty"])
+        out.append("Definition ex_ops : list xop := [\n  {| xo_path := [1%%nat]; xo_op := GetOrAdd (Elem %d [] []) [%s] |};\n"
+                   "  {| xo_path := [0%%nat; 0%%nat]; xo_op := SetAttr %d DStrAny (PStr (Tx \"renamed\")) |};\n"
+                   "  {| xo_path := [1%%nat]; xo_op := Remove [%d] |}]." % (
+                       tags(ex_d["child"]), "; ".join(str(tags(x)) for x in ex_d["succ"]), attrs["name"], tags("a:xfrm")))
+        out.append("Definition ex_refused : xop := {| xo_path := [0%%nat; 0%%nat]; xo_op := SetAttr %d (DIntRange 0 10) (PStr (Tx \"x\")) |}." % attrs["id"])
     out.append("Close Scope string_scope.")
     out.append("Close Scope N_scope.")
     out.append("Definition n_unmodelled : nat := %d%%nat." % len(unm))
